@@ -62,7 +62,7 @@ print('FJVERIF-RESULT ' + json.dumps({'history': results, 'probe': probe}))
 def plan(tier: str, seed: int) -> List[Dict[str, Any]]:
     quick = tier == 'quick'
     n = 16 if quick else 32
-    return [{'seed': seed, 'shard': i, 'histories': 7 if quick else 150, 'timeout_s': 1500 if quick else 7200} for i in range(n)]
+    return [{'seed': seed, 'shard': i, 'histories': 9 if quick else 150, 'timeout_s': 1500 if quick else 7200} for i in range(n)]
 
 
 def corpus_sources() -> List[Dict[str, Any]]:
@@ -96,6 +96,13 @@ def layout_variants(rng: random.Random, scratch: Path, count: int) -> List[Dict[
         out.append({'files': [str(path)], 'w': w, 'stl': True, 'name': f'layout-variant-{k}'})
     # a source that only WARNS (its outcome depends on the warning mode, in every process alike), one whose macro body holds a
     # 300-term expression (needs the default recursion limit), and flat programs of more than 2^16 data words
+    # two stl programs that use the same spelling differently: a constant in one, a label in the other
+    ca = scratch / 'const_a.fj'
+    ca.write_text('stl.startup\nfjc = 3\nfjd = 64\n;fjc*dw\nstl.loop\n')
+    out.append({'files': [str(ca)], 'w': 64, 'stl': True, 'name': 'stl-with-constants'})
+    cb = scratch / 'const_b.fj'
+    cb.write_text('stl.startup\n;fjc\nfjd = 128\nfjc: ;fjd\nstl.loop\n')
+    out.append({'files': [str(cb)], 'w': 64, 'stl': True, 'name': 'stl-same-spelling-as-label'})
     segs = scratch / 'segments.fj'
     segs.write_text(';\n' + ''.join(f'segment {(k + 1) * 4096}\ns{k}: ;s{k}\nwflip s{k} + 64, 5\n' for k in range(7)))
     out.append({'files': [str(segs)], 'w': 64, 'stl': False, 'name': 'seven-segments'})
@@ -250,6 +257,13 @@ def run_shard(spec: Dict[str, Any], journal: Any) -> Dict[str, Any]:
             probe_src = by_name['warning-bearing']
             history.append(dict(probe, werror=rng.random() < 0.5))
             judge.count('targeted/warning-source-again-as-errors')
+        elif 0.38 <= r < 0.46 and 'stl-with-constants' in by_name:
+            # the FIRST stl program of the process defines constants; the probe spells a label (and a constant) the same way
+            werror = rng.random() < 0.5
+            probe = dict(by_name['stl-same-spelling-as-label'], werror=werror, version=rng.choice([1, 3]))
+            probe_src = by_name['stl-same-spelling-as-label']
+            history.insert(0, dict(by_name['stl-with-constants'], werror=werror, version=1))
+            judge.count('targeted/constants-of-the-first-stl-program')
         elif r < 0.38 and 'seven-segments' in by_name:
             # a program with many segments (many assembler-declared labels), assembled under another string-hash seed
             probe = dict(by_name['seven-segments'], werror=True, version=rng.choice([1, 3]))
